@@ -276,7 +276,7 @@ def _write_evidence(prop, tier, seed, t0, results, cmod, n_ob=0, n_dis=0, sample
         "dropped_by_extraction": ["logging calls (null logger)", "annotations and docstrings (not evaluated)",
                                    "termination (not proved)"],
         "encoding": ["python int = mathematical integer", "float64 = mathematical real (no rounding, NaN, inf)",
-                     "basic slices are copies", "z3 5.1 primary, cvc5 1.0.3 for z3's unknowns"],
+                     "basic slices are views for stores and in-place operations made through them (write-through); a store into the array after a slice was taken is not seen by the slice", "z3 5.1 primary, cvc5 1.0.3 for z3's unknowns"],
         "not_decided": list(getattr(cmod, "NOT_DECIDED", [])),
         "evaluations": n_ob, "distinct_nontrivial": n_dis,
         "rule": "one evaluation = one named proof obligation generated from the current source; distinct_nontrivial = "
